@@ -654,6 +654,9 @@ func c03Worker(ctx *core.Ctx) *core.Result {
 	defer x.sc.Close()
 	x.run(panSpaces(ctx))
 	x.runChain()
+	// targets made of IPv4 + IPv6 + raw parts for two vsys (shared with C18):
+	// the device must reach the effective, merged target
+	(&c18{ctx: ctx, res: x.res, sc: x.sc, prop: "C03"}).runPanosMulti()
 	return x.res
 }
 
@@ -711,7 +714,7 @@ func SelftestPanos() (ok, unsupported int, bad []string) {
 func init() {
 	registerSharded("C03", c03Worker, func(tier string) core.Meta {
 		return core.Meta{ID: "C03", Level: "model_checking",
-			Rule: "states = distinct candidate-configuration states of the PAN-OS model; enumerated: all pairs of rule sequences over a 6/7-rule alphabet (action, zones, source list, group, service, service-group, unknown attribute), all pairs of group member sets over 4/5 addresses x naming/value variants (renamed, shared, equal name other value, unknown child element, name clash with left-over), service variants, two-vsys structures, corpus product of pan-os.t, chain of approves; transition = real planner; each XML-API command (set/edit/delete/move) is executed on the model; oracle: ordered rules equal with addresses, groups, services expanded by value, second compare of the printed candidate config silent, empty script only for an equivalent vsys",
+			Rule: "states = distinct candidate-configuration states of the PAN-OS model; enumerated: all pairs of rule sequences over a 6/7-rule alphabet (action, zones, source list, group, service, service-group, unknown attribute), all pairs of group member sets over 4/5 addresses x naming/value variants (renamed, shared, equal name other value, unknown child element, name clash with left-over), service variants, two-vsys structures, two-rule spaces shared and two-groups, targets of IPv4+IPv6+raw parts for two vsys (merged target, shared with C18), corpus product of pan-os.t, chain of approves; transition = real planner; each XML-API command (set/edit/delete/move) is executed on the model; oracle: ordered rules equal with addresses, groups, services expanded by value, second compare of the printed candidate config silent, empty script only for an equivalent vsys",
 			Assumptions: []string{"PAN-OS model: set merges (members appended, new entries last), edit replaces the addressed node, delete fails on absent or referenced objects, move needs an existing destination",
 				"commands are taken in the unescaped form the tool prints (names in the alphabets contain no '&' or '%')"},
 			Bounds: map[string]any{"quick": "rules len<=2 over 6, groups over 4 addresses", "thorough": "rules len<=3 over 7, groups over 5 addresses"},
